@@ -263,11 +263,61 @@ def r2(F, R):
                         R.ok("C18-R2", key, site, "non-divergent return: the last integrated state")
                     else:
                         R.bad("C18-R2", key, site, "non-divergent draw returns %s, not the state the integrator reached" % vt_str(state_v)[:80])
+                elif _single_return_form(F, b, bi, st, state_v, info_v):
+                    n += 1      # this one return stands for both cases
+                    R.ok("C18-R2", key, site, "one return for both cases: diverging = <divergence info>.is_some(); the state is restart.unwrap_or(current) where restart is "
+                         "Some(copy of the pre-trajectory state with fresh momentum) exactly on the diverging edge and `current` is the last integrated state")
                 else:
                     R.bad("C18-R2", key, site, "cannot determine the diverging flag of this return")
     if n < 2:
         R.missing("C18-R2", "two (state, MclmcInfo) returns in mclmc_kernel (found %d)" % n)
 
+
+
+def _single_return_form(F, b, bi, st, state_v, info_v):
+    """`Ok((restart.unwrap_or(current), MclmcInfo { diverging: info.is_some(), .. }))` with `restart = if diverging { Some(fresh copy) } else { None }`."""
+    from . import rel as Rl
+    dv = None
+    for nn in vt_walk(info_v):
+        if nn[0] == "agg" and "MclmcInfo" in str(nn[1]) and nn[3] and "diverging" in nn[3]:
+            dv = nn[2][nn[3].index("diverging")]
+    if dv is None or not (dv[0] == "call" and str(dv[1]).endswith("is_some") and "divergence_info" in vt_str(dv)):
+        return False
+    flag = vt_str(dv)
+    if not (state_v[0] == "call" and strip_generics(str(state_v[1])).endswith("Option::unwrap_or") and len(state_v[2]) == 2):
+        return False
+    r, c = state_v[2]
+    if r[0] != "local" or c[0] != "local":
+        return False
+    # `current`: assigned from the leapfrog results
+    cl = [l for l in range(len(b.r.get("locals") or [])) if b.local_name(l) == c[1]] if isinstance(c[1], str) else [c[1]]
+    from_leap = False
+    for l in cl:
+        for d in b.defs().get(l, []):
+            if d[0] == "stmt" and d[3]["k"] == "assign" and "leapfrog" in vt_str(b.rvalue_value(d[3]["rv"])):
+                from_leap = True
+    if not from_leap:
+        return False
+    # `restart`: Some(fresh copy) on the diverging edge, None on the other
+    rl = [l for l in range(len(b.r.get("locals") or [])) if b.local_name(l) == r[1]] if isinstance(r[1], str) else [r[1]]
+    some_ok, none_ok = False, False
+    for l in rl:
+        for bj, blk in enumerate(b.blocks):
+            for s2 in blk["stmts"]:
+                if s2["k"] != "assign" or s2["pl"]["l"] != l or s2["pl"]["p"] or s2["rv"]["k"] != "agg":
+                    continue
+                rels = [(o, vt_str(x)) for (o, x, y, _sw) in Rl.edge_relations(b, bj) if y is None]
+                if s2["rv"].get("variant") == "None" and ("False", flag) in rels:
+                    none_ok = True
+                if s2["rv"].get("variant") == "Some" and ("True", flag) in rels:
+                    nl = root_local_chain(b, s2["rv"]["ops"][0])
+                    ds = b.defs().get(nl, [])
+                    from_copy = any(d[0] == "call" and d[3]["callee"].get("name") == "copy_state" and
+                                    any(n_[0] == "field" and n_[2] == "state" for a in d[3]["args"] for n_ in vt_walk(b.value(a))) for d in ds)
+                    init_ok = any(t["callee"].get("name") == "initialize_trajectory" and b.dominates(bb, bj) and any(K.root_local(b, a) == nl for a in t["args"])
+                                  and any(a["k"] == "const" and a["const"].get("v") == "true" for a in t["args"]) for bb, t in b.calls())
+                    some_ok = from_copy and init_ok
+    return some_ok and none_ok
 
 def root_local_chain(b, op):
     """Follow moves back to a named local."""
